@@ -18,8 +18,8 @@ META = {
         "reconciliation contains a duplication or loss; distinct = (sizes, #spe, #dup, #losses of the LCA mapping)."
     ),
     "floors": {
-        "quick": {"evaluations": 3000, "mon.mapping": 1500, "mon.optimal_pairs": 30000, "mon.unique": 20000, "mon.thl_agree": 1500},
-        "thorough": {"evaluations": 60000, "mon.mapping": 30000, "mon.optimal_pairs": 300000, "mon.unique": 200000, "mon.thl_agree": 20000},
+        "quick": {"evaluations": 3000, "mon.mapping": 1500, "mon.optimal_pairs": 30000, "mon.unique": 20000, "mon.thl_agree": 1500, "mon.reindexed": 1500},
+        "thorough": {"evaluations": 60000, "mon.mapping": 30000, "mon.optimal_pairs": 300000, "mon.unique": 200000, "mon.thl_agree": 20000, "mon.reindexed": 30000},
     },
     "exhaustive": {"quick": True, "thorough": True},
     "space": {"quick": "all inputs <=4 object leaves x <=4 species leaves (all assignments, mirrored shapes) x 36 (dup, floss) pairs", "thorough": "all inputs <=5 object leaves x <=4 species leaves and a sample of 5x5; random inputs up to 10x8 against THL"},
@@ -102,6 +102,13 @@ def check_input(ctx, Gn, Sn, lm, pairs, thl_pairs):
             got = set(SC.canon_set(o))
             if got != {want_canon}:
                 ctx.viol("C07.thl_agree", case, f"THL with hgt=inf and floss>0 returns {len(got)} solution(s), expected exactly the LCA reconciliation")
+    # history: the same tree objects, children reversed in place, indexed again by a new LowestCommonAncestor
+    B.reindexed_inplace()
+    obs2 = SC.call("lca", B.inp)
+    ctx.count("evaluations")
+    ctx.count("mon.reindexed")
+    for mon, msg in judge_mapping(B, obs2):
+        ctx.viol(f"C07.{mon}", dict(case0, history="children reversed in place, trees indexed again"), msg + " (second run on the same tree objects after an in-place child reordering)")
     n = dtl.event_counts(B.G, B.S, lca_m)
     ctx.sig((len(B.G.leaves()), len(B.S.leaves()), n["SPE"], n["DUP"], n["LOSS"]), len(B.G.leaves()) >= 2 and n["DUP"] + n["LOSS"] > 0)
     if len(lm) >= 3 and n["DUP"] + n["LOSS"] > 0:
